@@ -400,6 +400,20 @@ def configs(rng: random.Random, size: str) -> List[Dict[str, Any]]:
     for red in ("mean", "sum"):
         for sh in ([3], [2, 3], [1], [2, 1, 4], []):
             C.append({"op": "mse_loss", "shape": sh, "reduction": red})
+    # siblings: the SAME hyper-parameters with one size changed -- a value memoised per (hyper-parameters) instead of per
+    # (hyper-parameters, shape) then shows up as a factor that depends on the call history (fnlog.other_history_events)
+    SIZE = {"softmax": ("n", lambda v: 2 * v + 1), "scaled_dot_product_attention": ("seq", lambda v: v + 3), "cross_entropy": ("vocab", lambda v: v + 4),
+            "linear": ("fan_in", lambda v: v + 3), "linear_readout": ("fan_in", lambda v: v + 3), "matmul": ("b", lambda v: v + 2), "conv1d": ("len", lambda v: v + 2),
+            "embedding": ("dim", lambda v: v + 2), "gelu": ("n", lambda v: v + 2), "silu": ("n", lambda v: v + 2), "silu_glu": ("n", lambda v: v + 2),
+            "layer_norm": ("batch", lambda v: v + [2]), "rms_norm": ("batch", lambda v: v + [2]), "dropout": ("n", lambda v: v + 3)}
+    ALWAYS = {"softmax", "scaled_dot_product_attention", "cross_entropy"}     # scales fitted as functions of a size
+    sib = []
+    for c in C:
+        if c["op"] in SIZE and (c["op"] in ALWAYS or rng.random() < 0.25):
+            k, f = SIZE[c["op"]]
+            if k in c and c[k] is not None:
+                sib.append(dict(c, **{k: f(c[k])}))
+    C += sib
     # dtypes: a slice of everything in lower precision
     low = []
     for c in rng.sample(C, len(C) // (6 if q else 3)):
